@@ -133,6 +133,16 @@ def check(run):
         if quick and (specs[0].exps[0] in (1e2, 1e4) or specs[2].exps[0] in (1e2, 1e4)):
             continue
         quartet_case(run, specs, "general", "ill-conditioned " + tag)
+    # nearly coincident centres within the bra and between bra and ket
+    from checks.common import NEAR_LADDER
+    for n, ls in enumerate([(0, 1, 0, 0), (1, 1, 0, 1), (0, 2, 1, 0), (1, 0, 1, 0)] + ([] if quick else [(2, 1, 1, 1), (1, 2, 2, 0), (0, 0, 0, 1), (2, 2, 0, 0)])):
+        specs = rand_quartet(rng, ls, "general", maxprim=1 if quick else 2, maxseg=1)
+        sep = NEAR_LADDER[1 + n % 4]
+        a = np.array(specs[0].center) + (np.array([12.0, -9.0, 15.0]) if n % 2 else 0.0)
+        specs[0] = specs[0].copy(center=[float(x) for x in a])
+        specs[1] = specs[1].copy(center=[float(x) for x in a + sep * np.array([0.7, -1.0, 0.4])])
+        specs[2 + n % 2] = specs[2 + n % 2].copy(center=[float(x) for x in a + sep * np.array([-0.5, 0.3, 0.9])])
+        quartet_case(run, specs, "general", "nearly coincident centres")
     # whole-basis calls, both notations, all coordinate types
     nb = 3 if quick else 16
     for k in range(nb):
